@@ -549,6 +549,12 @@ func DoReplay[C any](s *Session, t *testing.T, rf *ReplayFile, run func(C) *Fail
 		res.Violated, res.Cause, res.Message = true, f.Cause, f.Msg
 	}
 	s.mu.Lock()
+	if f == nil {
+		// a case the check classified as a listed known finding still fails the property
+		for id := range s.knownHits {
+			res.Violated, res.Cause, res.Message = true, "known:"+id, "classified as listed known finding "+id
+		}
+	}
 	s.extra["replay_result"] = res
 	s.mu.Unlock()
 }
